@@ -197,9 +197,9 @@ def check_case(case):
         if not np.all(np.isfinite(obj)) and math.isfinite(F):
             viol.append(Viol(dict(sig, kind="non-finite-history"), f"{name}: non-finite history {obj.tolist()} for a feasible returned point"))
     # (c) stop_crit is the violation of the returned point
-    if claims and name not in ("LBFGS", "FISTA", "PDCD_WS") and not viol:
+    if claims and name not in ("LBFGS", "PDCD_WS") and not viol and not (name == "FISTA" and s.get("opt_strategy") != "subdiff"):
         strat = s.get("ws_strategy") or "subdiff"
-        if name in ("GramCD", "GroupProxNewton"):
+        if name in ("GramCD", "GroupProxNewton", "FISTA"):
             strat = "subdiff"
         c = c01.certificate(case, out.w, strat, eta_buf=buf)
         v = max(c["feat"], c["icpt"])
